@@ -291,9 +291,11 @@ class CTCPrefixLogRawNumpyDecoder:
             Plm += eos_scores
 
         Pom = np.logaddexp(Pb, Pnb)
-        bag_of_hypotheses = build_boh([self.symbol_separator.join(self._letters[i] for i in prefix) for prefix in prefixes], Pom, Plm, lm_weight=self._lm_scale)
+        transcripts = [self.symbol_separator.join(self._letters[i] for i in prefix) for prefix in prefixes]
+        bag_of_hypotheses = build_boh(transcripts, Pom, Plm, lm_weight=self._lm_scale)
         if return_h:
-            idx_of_best = np.argmax(Pom + Plm*self._lm_scale)
+            # the state handed on has to be the state of the hypothesis that best_hyp() reports (they could differ on a tie)
+            idx_of_best = transcripts.index(bag_of_hypotheses.best_hyp())
             return bag_of_hypotheses, h_prev[[idx_of_best]]  # a single-item list is needed to keep shape
         else:
             return bag_of_hypotheses
